@@ -58,11 +58,40 @@ Theorem C06_accessors_are_unquoters : forall (B : backend) (u : url),
 Proof. intros. repeat split. Qed.
 Print Assumptions C06_accessors_are_unquoters.
 
-(** PARTIAL: that the unquoter models equal the independent decoding specification
-    Spec/Decode.v (greedy strict UTF-8, malformed escapes verbatim) on ALL raw texts is not
-    proved; it is checked by the extracted predicate c06_pred on the implementation and the
-    model (39 escape/literal tokens in every component).  URL.query deviates (known
-    finding F18: parse_qsl decodes with errors="replace"). *)
+(** The unquoter models - the incremental decoder of both backends, with its buffer of
+    pending bytes flushed verbatim on an error and its "unchanged" shortcut - equal the
+    independent greedy decoding specification Spec/Decode.v (strict UTF-8 per Unicode Table
+    3-7; malformed or undecodable escapes kept verbatim; '+' a space only in queries;
+    path_safe keeps %2F and %25; query_string keeps %2B %3D %26 %3B) on EVERY string, for
+    the four configurations in use. *)
+From Yarl Require Import Proofs.DecodeProofs.
+Theorem C06_unquoters_are_the_decoding_spec : forall (b : backend) ku fl (s : str),
+  In (ku, fl) flavour_of -> unquote_impl b ku s = pct_decode fl s.
+Proof. exact unquote_impl_is_spec. Qed.
+Print Assumptions C06_unquoters_are_the_decoding_spec.
+
+(** hence every decoded accessor is that decoding of its raw component *)
+Theorem C06_accessors_spec : forall (B : backend) (u : url),
+  path B u = match u_path u with [] => if nonempty (u_netloc u) then [47%N] else [] | p => pct_decode fl_plain p end
+  /\ path_safe B u = match u_path u with [] => if nonempty (u_netloc u) then [47%N] else [] | p => pct_decode fl_path_safe p end
+  /\ query_string B u = match u_query u with [] => [] | q => pct_decode fl_query_string q end
+  /\ fragment B u = match u_fragment u with [] => [] | f => pct_decode fl_plain f end
+  /\ parts B u = map (pct_decode fl_plain) (raw_parts u)
+  /\ name B u = pct_decode fl_plain (raw_name u)
+  /\ suffix B u = pct_decode fl_plain (raw_suffix u).
+Proof.
+  intros B u. unfold path, path_safe, query_string, fragment, parts, name, suffix, UQ.
+  repeat split; try (destruct (u_path u); [reflexivity|]); try (destruct (u_query u); [reflexivity|]);
+    try (destruct (u_fragment u); [reflexivity|]);
+    try (apply unquote_impl_is_spec; cbn; auto 6).
+  apply map_ext. intros a. apply unquote_impl_is_spec; cbn; auto.
+Qed.
+Print Assumptions C06_accessors_spec.
+
+(** Remaining partial: URL.query goes through urllib's parse_qsl (errors="replace"), which
+    deviates on undecodable escapes (known finding F18); URL-level read-back through
+    build/with_*/'/'/joinpath composes these component theorems with the entry points and
+    is checked by c06_pred, not proved. *)
 
 Example C06_spec_example :
   pct_decode fl_plain [37;67;51;37;65;57;37;69;50;37;56;50;43;37;50;70]%N = [233;37;69;50;37;56;50;43;47]%N      (* %C3%A9%E2%82+%2F *)
